@@ -846,8 +846,11 @@ type OCSPCA struct {
 type OCSPResponder struct {
 	Key  *OCSPKey
 	Cert *x509.Certificate
-	CA   *OCSPCA
-	EKU  bool
+	// Renewed is a second delegation certificate for the same key and subject
+	// from the same CA with another serial and validity (nil without EKU).
+	Renewed *x509.Certificate
+	CA      *OCSPCA
+	EKU     bool
 }
 
 // OCSPPool is the fixed material.
@@ -1002,7 +1005,19 @@ func ocspBuildPool() (*OCSPPool, error) {
 				if err != nil {
 					return nil, err
 				}
-				p.Responders = append(p.Responders, &OCSPResponder{Key: rk, Cert: c, CA: ca, EKU: eku})
+				resp := &OCSPResponder{Key: rk, Cert: c, CA: ca, EKU: eku}
+				if eku {
+					tmpl.SerialNumber = big.NewInt(serial + 20000)
+					tmpl.NotBefore, tmpl.NotAfter = nb.AddDate(4, 1, 1), na.AddDate(2, 0, 0)
+					der, err := x509.CreateCertificate(rand.Reader, tmpl, ca.Cert, rk.Priv.Public(), ca.Key.Priv)
+					if err != nil {
+						return nil, fmt.Errorf("renewed responder %d/%d: %v", ca.ID, ki, err)
+					}
+					if resp.Renewed, err = x509.ParseCertificate(der); err != nil {
+						return nil, err
+					}
+				}
+				p.Responders = append(p.Responders, resp)
 			}
 		}
 	}
